@@ -71,6 +71,7 @@ func c10Cases(tier string, seed int64) []core.Case {
 		}
 	}
 	cases = append(cases, core.Case{ID: "writefault", Run: func(ctx *core.Ctx) core.Result { return c10WriteFault(ctx) }})
+	cases = append(cases, core.Case{ID: "writer-blocked", Run: func(ctx *core.Ctx) core.Result { return c10WriterBlocked(ctx) }})
 	cases = append(cases, core.Case{ID: "unmount", Run: func(ctx *core.Ctx) core.Result { return c10Unmount(ctx, tier == "thorough") }})
 	cases = append(cases, core.Case{ID: "tagiface", Run: func(ctx *core.Ctx) core.Result { return c10TagIface(ctx) }})
 	return cases
@@ -793,4 +794,131 @@ func c10TagIface(ctx *core.Ctx) core.Result {
 		}
 	}
 	return res
+}
+
+// c10WriterBlocked: the failure arrives while the client's writer is stuck in a transport Write because the peer
+// does not drain requests (full socket buffer). Every outstanding and every later call must still fail and return.
+func c10WriterBlocked(ctx *core.Ctx) core.Result {
+	var res core.Result
+	faults := []string{"close", "reset", "stall-undersize", "stall-oversize", "stall-badtype", "stall-unknowntag"}
+	for _, fault := range faults {
+		for k := 1; k <= 4; k++ {
+			res.Evals++
+			base := stuckDump()
+			p := peer.New(8192, true)
+			sched.Install(sched.New(nil, nil))
+			stop := make(chan struct{})
+			served := make(chan struct{})
+			go func() { p.Serve(stop); close(served) }()
+			done := make(chan string, 1)
+			ready := make(chan *go9p.Clnt, 1)
+			go func() {
+				c, err := go9p.Connect(p.Cli, 8192, true)
+				if err != nil {
+					ready <- nil
+					done <- "connect failed"
+					return
+				}
+				if _, err := c.Attach(nil, script.Users{}.Uid2User(0), "x"); err != nil {
+					ready <- nil
+					done <- "attach failed"
+					return
+				}
+				ready <- c
+			}()
+			c := <-ready
+			if c == nil {
+				res.Inconclusive = "c10: setup failed: " + <-done
+				return res
+			}
+			close(stop)
+			<-served // nobody answers any more
+			// from now on the peer does not read, and its receive buffer is tiny: the client's writer blocks inside Write
+			p.PauseReads(true)
+			p.Srv.Cap = 64
+			var wg sync.WaitGroup
+			var mu sync.Mutex
+			okCalls, errCalls, bad := 0, 0, ""
+			for i := 0; i < k; i++ {
+				wg.Add(1)
+				go func(i int) {
+					defer wg.Done()
+					s := &sess{p: p, c: c, dotu: true}
+					r := s.do(call{kind: "write", fidn: uint32(60 + i), offset: 1, data: bytes.Repeat([]byte{byte(i)}, 3000)})
+					mu.Lock()
+					switch {
+					case r == "":
+						okCalls++
+					case strings.HasPrefix(r, "error: "):
+						errCalls++
+					default:
+						bad = r
+					}
+					mu.Unlock()
+				}(i)
+			}
+			// let the writer run into the full buffer
+			waitUntil(func() bool { return p.Srv.Queued() >= 64 }, 2*time.Second)
+			time.Sleep(2 * time.Millisecond)
+			switch fault {
+			case "close":
+				p.Srv.Close()
+			case "reset":
+				p.Srv.Reset()
+			case "stall-undersize":
+				_, _ = p.Srv.Write([]byte{3, 0, 0, 0, wire.Rclunk, 1, 0})
+			case "stall-oversize":
+				_, _ = p.Srv.Write([]byte{0, 0, 0, 0x10, wire.Rread, 1, 0, 9, 9, 9})
+			case "stall-badtype":
+				_, _ = p.Srv.Write([]byte{7, 0, 0, 0, 99, 1, 0})
+			case "stall-unknowntag":
+				_, _ = p.Srv.Write(wire.Encode(&wire.Msg{Type: wire.Rclunk, Tag: 0x7ABC}, true))
+			}
+			fin := make(chan struct{})
+			go func() {
+				wg.Wait()
+				// and a call issued after the failure
+				s := &sess{p: p, c: c, dotu: true}
+				if r := s.do(call{kind: "stat", fidn: 9}); r == "" {
+					mu.Lock()
+					bad = "a call issued after the connection failed returned success"
+					mu.Unlock()
+				}
+				close(fin)
+			}()
+			sig := fmt.Sprintf("k=%d;%s", k, fault)
+			if stuck, ok := hung(fin, base); ok {
+				if bad != "" {
+					res.Violate("C10;writer-blocked;wrong-result;"+fault, bad, nil)
+				}
+				if okCalls > 0 {
+					res.Violate("C10;writer-blocked;success-without-reply;"+fault, fmt.Sprintf("%d calls returned success although no reply was ever sent", okCalls), nil)
+				}
+			} else if stuck != "" {
+				res.Violate("C10;hang;writer-blocked;"+fault, fmt.Sprintf("calls never returned when the connection failed (%s) while the client's writer was blocked in a transport write [k=%d]", fault, k), stuck)
+			} else {
+				res.Inconclusive = "c10: writer-blocked scenario did not finish, no stable blocked caller"
+			}
+			p.PauseReads(false)
+			p.Srv.Close()
+			c.Unmount()
+			res.Sig("writer-blocked|" + sig)
+			if len(res.Violations) > 1 {
+				return res
+			}
+		}
+	}
+	res.Sample(map[string]interface{}{"scenario": "failure while the client's writer is blocked in Write", "faults": faults, "k": "1..4"})
+	return res
+}
+
+func waitUntil(pred func() bool, d time.Duration) bool {
+	deadline := time.Now().Add(d)
+	for !pred() {
+		if time.Now().After(deadline) {
+			return false
+		}
+		time.Sleep(100 * time.Microsecond)
+	}
+	return true
 }
